@@ -66,6 +66,7 @@ namespace ip {
 		s.m_forwarder.reset();
 		s.m_open = false;
 		s.m_bound_to = ip::udp::endpoint();
+		s.m_user_bound_to = ip::udp::endpoint();
 		if (m_bound_to != ip::udp::endpoint())
 			m_io_service.rebind_udp_socket(this, m_bound_to);
 	}
